@@ -804,7 +804,7 @@ func genCase(t *rapid.T) Case {
 			}
 			return ids
 		}()).Draw(t, "path")
-		np := rapid.IntRange(2, 4).Draw(t, "npieces")
+		np := rapid.IntRange(2, 8).Draw(t, "npieces")
 		if np > len(path)-1 {
 			np = len(path) - 1
 		}
@@ -895,7 +895,7 @@ func genCase(t *rapid.T) Case {
 func TestConvert(t *testing.T) {
 	harness.Run(t, harness.Spec[Case]{
 		Name: "convert", N: 4000,
-		Rule:     "OSM data sets over a pool of up to 14 located nodes (present or missing; no / only-uninteresting / interesting tags), unlocated nodes, 0..5 ways (open, closed simple rings, area-tagged, short, through missing nodes, coordinates on way nodes or via node objects, shared nodes), 0..3 relations (route, multipolygon, boundary, restriction, site, untyped; way/node/relation members, present or absent), in a third of the cases a chained route (a node path cut into consecutive member ways, pieces reversed and tagged at random, members shuffled), every metadata field independently present; each case converted under all 16 option combinations; oracle = the statement's rules evaluated on the model (unique feature ids naming input elements, node interest rule, way line/area geometry from resolvable coordinates, route segment multiset, type/id/tags/meta/relations properties) + metamorphic option relations against the default conversion + determinism (also after the caller wrote into the property maps of an earlier result, which must not touch the other features either) + input immutability; one timestamp in six lies before or at the Unix epoch or in year 9999; non-trivial = a way runs through an interestingly tagged node, or the data set has a relation",
+		Rule:     "OSM data sets over a pool of up to 14 located nodes (present or missing; no / only-uninteresting / interesting tags), unlocated nodes, 0..5 ways (open, closed simple rings, area-tagged, short, through missing nodes, coordinates on way nodes or via node objects, shared nodes), 0..3 relations (route, multipolygon, boundary, restriction, site, untyped; way/node/relation members, present or absent), in a third of the cases a chained route (a node path cut into 2..8 consecutive member ways, pieces reversed and tagged at random, members shuffled), every metadata field independently present; each case converted under all 16 option combinations; oracle = the statement's rules evaluated on the model (unique feature ids naming input elements, node interest rule, way line/area geometry from resolvable coordinates, route segment multiset, type/id/tags/meta/relations properties) + metamorphic option relations against the default conversion + determinism (also after the caller wrote into the property maps of an earlier result, which must not touch the other features either) + input immutability; one timestamp in six lies before or at the Unix epoch or in year 9999; non-trivial = a way runs through an interestingly tagged node, or the data set has a relation",
 		Gen:      genCase,
 		Check:    check,
 		Classify: classify,
